@@ -353,7 +353,7 @@ class Machine(object):
                 it.err = ("exc", "AssertionError")
 
 
-SKIP = frozenset(["with:Xp", "with:Xr", "dd", "ddirty"])
+SKIP = frozenset(["with:Xp", "with:Xr", "dd", "ddirty", "dbi"])
 
 
 def lockstep(prog, r, conv_parent=False):
